@@ -23,9 +23,28 @@ def parseSeg (s : String) : Option Seg :=
 def parseSegs (s : String) : Option (List Seg) :=
   if s == "-" then some [] else (s.splitOn ",").mapM parseSeg
 
-def parseAuth (s : String) : Option Auth :=
-  if s == "n" then some .none else if s.startsWith "m" then some .malformed
-  else if s.startsWith "w" then some .wrong else if s.startsWith "r" then some .right else none
+/-- configured pairs: `-` or `user:pass,user:pass` -/
+def parseCreds (s : String) : Option (List (String × String)) :=
+  if s == "-" then some []
+  else (s.splitOn ",").mapM (fun x => match x.splitOn ":" with
+    | [a, b] => some (tokText a, tokText b)
+    | _ => none)
+
+/-- the Authorization header: `n` none, `m<k>` malformed, `b.<user>.<pass>` Basic, `l.<user>.<pass>` Basic with the
+    scheme in lower case -/
+def parseHeader (s : String) : Option AuthHeader :=
+  if s == "n" then some .none
+  else if s.startsWith "m" then some .malformed
+  else match s.splitOn "." with
+    | [k, u, p] => if k == "b" || k == "l" then some (.basic (tokText u) (tokText p)) else none
+    | _ => none
+
+/-- credential situation of a case line: (configured?, class by the statement's notion of valid credentials —
+    for the Spec —, class by the extracted logic of basicAuthHandler — for the model) -/
+def parseCredSit (ws : List String) (hkey : String) : Option (Bool × Auth × Auth) := do
+  let creds ← parseCreds (← field ws "cr")
+  let hd ← parseHeader (← field ws hkey)
+  pure (!creds.isEmpty, specAuthClass creds hd, authClass Gen.authLogic creds hd)
 
 def boolKeys : List String :=
   ["local", "recursive", "hidden", "wrap-with-directory", "shard", "progress", "raw-leaves", "stream-channels", "nocopy"]
@@ -67,7 +86,8 @@ def parseRpc (s : String) : Option RpcMode :=
   if s == "ok" then some .ok else if s == "err" then some .err else if s == "nf" then some .notFound else none
 
 def parseReq (ws : List String) : Option Req := do
-  pure { creds := (← field ws "cr") == "1", auth := ← parseAuth (← field ws "au"), pf := (← field ws "pf") == "1",
+  let (cfgd, sa, _) ← parseCredSit ws "au"
+  pure { creds := cfgd, auth := sa, pf := (← field ws "pf") == "1",
          method := ← field ws "m", segs := ← parseSegs (← field ws "p"), slash := (← field ws "sl") == "1",
          query := ← parseQuery (← field ws "q"), md := ← listOf parseKV (← field ws "md"),
          body := ← parseBody (← field ws "b"), rpc := ← parseRpc (← field ws "rpc") }
@@ -161,7 +181,9 @@ def modeNotEffective (r : Req) (o : Resp) : Bool :=
 def answerReq (pre post : List String) : String :=
   match parseReq pre, parseResp post with
   | some r, some o =>
-    let m := handle Gen.chain Gen.routes r
+    -- the model runs with the header classified by the extracted logic of basicAuthHandler
+    let ma := match parseCredSit pre "au" with | some (_, _, x) => x | none => r.auth
+    let m := handle Gen.chain Gen.routes { r with auth := ma }
     let a := arm r ++ "-" ++ toString m.status
     let failed := (clauses r o).filter (fun c => !c.2)
     if !failed.isEmpty then
@@ -190,8 +212,6 @@ def arrivedSeg (s : String) : Option Seg :=
 
 def arrivedPathSegs (s : String) : Option (List Seg) := (s.splitOn "/").mapM arrivedSeg
 
-def parseCliAuth (s : String) : Option Auth :=
-  if s == "n" then some .none else if s == "w" then some .wrong else if s == "r" then some .right else none
 
 def parseCall (ws : List String) (arrived : Bool := false) : Option Call := do
   let parsePathSegs := if arrived then arrivedPathSegs else parsePathSegs
@@ -252,16 +272,18 @@ def cliFilterWidened (c : Call) (ops : List Op) : Bool :=
 -- follow: in the K26 zone only the operation and the path as it arrives are checked for the why-tag)
 def answerCli (pre post : List String) : String :=
   match (do
-      let cfg : CliCfg := { creds := (← field pre "cr") == "1", auth := ← parseCliAuth (← field pre "cc"), rpc := ← parseRpc (← field pre "rpc") }
+      let (cfgd, sa, ma) ← parseCredSit pre "cc"
+      let cfg : CliCfg := { creds := cfgd, auth := sa, rpc := ← parseRpc (← field pre "rpc") }
+      let cfgM : CliCfg := { cfg with auth := ma }
       let c ← parseCall pre
       let ca ← parseCall pre true
       let ops ← parseOps (← field post "ops")
       let ret ← parseRet (← field post "ret")
-      pure (cfg, c, ca, ops, ret) : Option (CliCfg × Call × Call × List Op × Ret)) with
+      pure (cfg, cfgM, c, ca, ops, ret) : Option (CliCfg × CliCfg × Call × Call × List Op × Ret)) with
   | none => "bad-case client-line"
-  | some (cfg, c, ca, ops, ret) =>
+  | some (cfg, cfgM, c, ca, ops, ret) =>
     -- the model is run on the call as its path components arrive (the client does not escape them)
-    let m := clientCall Gen.chain Gen.routes cfg ca
+    let m := clientCall Gen.chain Gen.routes cfgM ca
     let a := "cli-" ++ (field pre "call").getD "?" ++ "-" ++ showRet m.2
     let failed := (cliClauses cfg c ops ret).filter (fun x => !x.2)
     if !failed.isEmpty then
@@ -284,7 +306,8 @@ def parseMp (s : String) : Option Multipart :=
   if s == "ok" then some .ok else if s == "none" then some .none else if s == "junk" then some .junk else none
 
 def parseAddReq (ws : List String) : Option AddReq := do
-  pure { creds := (← field ws "cr") == "1", auth := ← parseAuth (← field ws "au"), mp := ← parseMp (← field ws "mp"),
+  let (cfgd, sa, _) ← parseCredSit ws "au"
+  pure { creds := cfgd, auth := sa, mp := ← parseMp (← field ws "mp"),
          query := ← parseQuery (← field ws "q"), md := ← listOf parseKV (← field ws "md"), rpc := ← parseRpc (← field ws "rpc") }
 
 def parseRoot (s : String) : Option (Option RootDesc) :=
@@ -333,7 +356,8 @@ def addWhy (r : AddReq) : String :=
 def answerAdd (pre post : List String) : String :=
   match parseAddReq pre, parseAddResp post with
   | some r, some o =>
-    let m := addHandle r
+    let ma := match parseCredSit pre "au" with | some (_, _, x) => x | none => r.auth
+    let m := addHandle { r with auth := ma }
     let a := "Add-" ++ toString m.status ++ (if m.trailer then "-trailer" else "")
     let failed := (addClauses r o).filter (fun c => !c.2)
     if !failed.isEmpty then
